@@ -134,36 +134,60 @@ def r2(ctx):
   force = c.params[1] if len(c.params) > 1 else 'force'
   whyc = ('contraction (also the forced one of a jitter round) may remove a member only while more than min_size healthy members are active, and never '
           'one that is still being opened')
-  nh = [st for st in walk_no_nested(c.node) if isinstance(st, ast.Assign) and U(st.targets[0]) == 'num_healthy']
-  okh = len(nh) == 1 and U(nh[0].value).replace(' ', '') == 'len([cforcinself._heap[1:]ifc.channel.is_open])'
-  ctx.ob('C06.R2', c, 'healthy = active members whose channel is open', okh, 'num_healthy is %s' % [U(x.value) for x in nh], whyc)
+  import re
+  HPAT = [re.compile(r"len\(\[(\w+)for\1inself\._heap\[1:\]if\1\.channel\.is_open\]\)"),
+          re.compile(r"sum\(\(?1for(\w+)inself\._heap\[1:\]if\1\.channel\.is_open\)?\)"),
+          re.compile(r"sum\(\[1for(\w+)inself\._heap\[1:\]if\1\.channel\.is_open\]\)")]
+
+  def canon(t):
+    t = t.replace(' ', '')
+    for p_ in HPAT:
+      t = p_.sub('#H', t)
+    return t
+
+  def closure(ev, upto):
+    """branch facts before `upto`, local aliases resolved, healthy-member count spelled #H"""
+    from ..util import equiv_facts
+    out = set()
+    for idx, e in enumerate(ev[:upto]):
+      if e.kind != 'cond':
+        continue
+      node = sym_resolve(e.node, sym_env(ev, idx))
+      for c_, t_ in equiv_facts(node, bool(e.info)):
+        out.add((canon(c_), t_))
+      for c_, t_ in FACTS([e]):
+        out.add((canon(c_), t_))
+    return out
   n_rm = 0
   for ev, ex in enum_paths(ctx, c):
-    fs = facts(ev)
     rm = [(i, e.node) for i, e in enumerate(ev) if e.kind == 'call' and U(e.node.func).replace(' ', '') == 'super(ApertureBalancerSink,self)._RemoveSink']
     if not rm:
       continue
     n_rm += 1
     i = rm[0][0]
-    before = facts(ev, i)
-    healthy = ('num_healthy>self._min_size', True) in before or ('self._min_size<num_healthy', True) in before
+    before = closure(ev, i)
+    healthy = ('#H>self._min_size', True) in before or ('self._min_size<#H', True) in before
     pend_ok = ('self._pending_endpoints', False) in before or (force, True) in before or ('not' + force, False) in before
-    ctx.ob('C06.R2', c, 'a member is removed only with more than min_size healthy members', healthy and len(rm) == 1, 'removal under facts %s' % before, whyc)
-    ctx.ob('C06.R2', c, 'a member is removed only when nothing is pending, unless forced', pend_ok, 'removal under facts %s' % before, whyc)
-    epn = U(rm[0][1].args[0])
-    np = any(c_.endswith('notinself._pending_endpoints') and t for c_, t in POS(before)) or any(c_.endswith('inself._pending_endpoints') and 'notin' not in c_ and not t for c_, t in POS(before))
-    ctx.ob('C06.R2', c, 'the evicted member is not a pending one', np, 'victim %s chosen without a not-pending fact: %s' % (epn, before), whyc)
-  ctx.floor('C06.R2', 'removal paths of _ContractAperture', n_rm, 2)
-  # preference: the closed-member scan comes first
-  loops = sorted([n for n in walk_no_nested(c.node) if isinstance(n, ast.For)], key=lambda n: n.lineno)
-  ok = len(loops) == 2 and 'is_closed' in U(loops[0]) and loops[0].lineno < loops[1].lineno and all(any(isinstance(x, ast.Break) for x in ast.walk(l)) for l in loops)
-  ctx.ob('C06.R2', c, 'a closed member is preferred as the victim; each scan stops at its first candidate', ok, 'victim scans changed', 'contraction prefers closed members and removes at most one')
+    ctx.ob('C06.R2', c, 'a member is removed only with more than min_size healthy members', healthy and len(rm) == 1,
+           'removal without the fact "open active members > min_size" (facts: %s)' % sorted(t for t, v in before if '#H' in t or '_min_size' in t), whyc)
+    ctx.ob('C06.R2', c, 'a member is removed only when nothing is pending, unless forced', pend_ok, 'removal under facts %s' % sorted(before)[:12], whyc)
+    # the victim is not one that is still being opened: a path fact, or the filter of the expression that picked it
+    varg = rm[0][1].args[0]
+    epn = U(varg)
+    np = any(c_.endswith('notinself._pending_endpoints') and t for c_, t in before) or any(c_.endswith('inself._pending_endpoints') and 'notin' not in c_ and not t for c_, t in before)
+    if not np:
+      src = sym_resolve(varg, sym_env(ev, i))
+      gens = [g for n in ast.walk(src) if isinstance(n, (ast.GeneratorExp, ast.ListComp)) for g in n.generators]
+      np = bool(gens) and all(any('notinself._pending_endpoints' in U(f_).replace(' ', '') for f_ in g.ifs) for g in gens)
+    ctx.ob('C06.R2', c, 'the evicted member is not a pending one', np, 'victim %s chosen without a not-pending filter' % epn, whyc)
+  ctx.floor('C06.R2', 'removal paths of _ContractAperture', n_rm, 1)
   a = prog.func(A, 'ApertureBalancerSink._AddSink')
   for ev, ex in enum_paths(ctx, a):
-    fs = facts(ev)
+    fs = closure(ev, len(ev))
     sup = [e for e in ev if e.kind == 'call' and U(e.node.func).replace(' ', '') == 'super(ApertureBalancerSink,self)._AddSink']
-    low = ('num_healthy<self._min_size', True) in fs
-    ctx.ob('C06.R2', a, 'a joiner becomes active iff fewer than min_size healthy members are active', bool(sup) == low, 'activation under facts %s' % fs,
+    low = ('#H<self._min_size', True) in fs or ('self._min_size>#H', True) in fs
+    ctx.ob('C06.R2', a, 'a joiner becomes active iff fewer than min_size healthy members are active', bool(sup) == low,
+           'activation=%s under facts %s' % (bool(sup), sorted(t for t, v in fs if '#H' in t or '_min_size' in t)),
            'contraction never leaves fewer than min(min_size, members) active: joins must refill the aperture up to min_size')
   init = prog.func(A, 'ApertureBalancerSink.__init__')
   props = init.params[2]
@@ -232,8 +256,34 @@ def r3(ctx):
   ctx.ob('C06.R3', init, 'EMA over a 5 s window on a monotonic clock, total starts at 0', 'self._ema=Ema(5)' in t and 'self._time=MonoClock()' in t and 'self._total=0' in t, '__init__ changed', why, nontrivial=False)
   em = prog.func(V, 'Ema.Update')
   t = U(em.node).replace(' ', '')
-  ok = 'self.value=sample*(1-window)+self.value*window' in t and 'math.exp(-float(delta)/self._window)' in t and t.endswith('returnself.value')
-  ctx.ob('C06.R3', em, 'EMA update is a convex combination weighted by exp(-dt/window)', ok, 'Ema.Update changed', 'the smoothed value stays between old value and sample', nontrivial=False)
+  import re as _re, copy as _copy
+  from ..normalize import lower_new_ifexps
+  emn = _copy.deepcopy(em.node)
+  lower_new_ifexps(emn, set(), {})
+  ts_, smp_ = em.params[1], em.params[2]
+  ok = True
+  n_upd = 0
+  for ev, ex in enum_paths(ctx, em, body=emn.body):
+    wv = [(i, e.node) for i, e in enumerate(ev) if e.kind == 'stmt' and isinstance(e.node, ast.Assign) and U(e.node.targets[0]) == 'self.value']
+    if not wv:
+      continue
+    i, st = wv[-1]
+    rt = resolved_text(ev, i, st.value)
+    if rt in ('float(%s)' % smp_, smp_):
+      continue                      # first sample
+    n_upd += 1
+    m = _re.match(r'^%s\*\(1-(.+)\)\+self\.value\*(.+)$' % _re.escape(smp_), rt)
+    good = False
+    if m:
+      w1, w2 = m.group(1), m.group(2)
+      if w2.startswith('(') and w2.endswith(')'):
+        w2 = w2[1:-1]
+      if w1.startswith('(') and w1.endswith(')'):
+        w1 = w1[1:-1]
+      dt = '%s-self._time' % ts_
+      good = w1 == w2 and w1 in ('0', 'math.exp(-float(%s)/self._window)' % dt, 'math.exp(-(%s)/self._window)' % dt, 'math.exp(-float(%s)/float(self._window))' % dt)
+    ok = ok and good
+  ctx.ob('C06.R3', em, 'EMA update is a convex combination weighted by exp(-dt/window)', ok and n_upd >= 1, 'Ema.Update changed', 'the smoothed value stays between old value and sample', nontrivial=False)
   mc = prog.func(V, 'MonoClock.Sample')
   t = U(mc.node).replace(' ', '')
   ctx.ob('C06.R3', mc, 'MonoClock never goes backwards', 'ifnow-self._last>0:self._last=now' in t.replace('\n', '') and t.endswith('returnself._last'), 'MonoClock.Sample changed', 'a negative time delta would blow the EMA up', nontrivial=False)
